@@ -55,6 +55,11 @@ def opaque_geometry_specs(v):
     def valid_geometry(ex, p, args, kw, node):
         g = args[0]
         if isinstance(g, Opq):
+            # assumed about opaque geometries (a consequence of C03 validity and the C05 bounds contract, not re-proved here):
+            # the bounds of a valid geometry are ordered and lie in the time / frequency domain -- keeps counter-models realistic
+            b = [f(g.t) for f in B]
+            ex.bg_local(p, [z3.Implies(VALID(g.t), z3.And(b[0] >= 0, b[0] <= b[2], b[1] >= 0, b[1] <= b[3], b[3] <= 5_000_000))])
+            ex.trace["assumed"].add("opaque geometries: a valid geometry's bounds are ordered and inside the domain (C03 + C05)")
             return [(p, Bool(VALID(g.t)))]
         return inline(ex, "valid_geometry", args, p)
 
